@@ -75,13 +75,16 @@ class Model:
 class Scenario:
     """One node; many timelines, each on a fresh connection."""
 
-    def __init__(self, run, node_idle, node_dwa, peer_idle, peer_dwa, direction):
+    def __init__(self, run, node_idle, node_dwa, peer_idle, peer_dwa, direction, busy=False):
         from vf.simnet.world import World, REALM
         from vf.simnet import msgs as M
         self.M, self.REALM = M, REALM
         self.run = run
         self.params = dict(node_idle=node_idle, node_dwa=node_dwa, peer_idle=peer_idle, peer_dwa=peer_dwa,
-                           direction=direction)
+                           direction=direction, busy=busy)
+        self.busy = busy
+        self.busy_sp = None
+        self.busy_n = 0
         timers = {}
         if peer_idle:
             timers["idle_timeout"] = peer_idle
@@ -90,7 +93,8 @@ class Scenario:
         pc = {"name": "peer1.verif.example", "timers": timers}
         if direction == "out":
             pc.update(persistent=True, reconnect_wait=1)
-        self.w = World(dict(peers=[pc], apps=[{"tag": "a4", "id": 4, "peers": ["peer1.verif.example"]}],
+        peers = [pc] + ([{"name": "busy.verif.example", "timers": {"idle_timeout": 10 ** 6}}] if busy else [])
+        self.w = World(dict(peers=peers, apps=[{"tag": "a4", "id": 4, "peers": ["peer1.verif.example"]}],
                             node={"idle_timeout": node_idle, "dwa_timeout": node_dwa, "cea_timeout": 10 ** 6,
                                   "cer_timeout": 10 ** 6}))
         self.h = self.w.h
@@ -104,6 +108,14 @@ class Scenario:
         if not self.started:
             self.w.start()
             self.started = True
+            if self.busy:
+                # a neighbour connection that keeps the node's loop busy: with it, no loop iteration of a step is idle
+                b = h.inbound(ip="10.1.0.9", port=59999)
+                h.settle()
+                b.send(M.cer("busy.verif.example", self.REALM, auth=[4], hbh=1, e2e=1))
+                h.settle()
+                b.drain()
+                self.busy_sp = b
         if self.params["direction"] == "in":
             self.gen += 1
             p = h.inbound(ip="10.1.0.1", port=50000 + self.gen % 9000)
@@ -172,7 +184,20 @@ class Scenario:
                 run.cov["nodetx_events"] = run.cov.get("nodetx_events", 0) + 1
                 ev = "none"
             want_dwr, want_close = model.predict(now, ev)
-            h.settle()
+            if self.busy_sp is not None and not self.busy_sp.node_sock.closed:
+                # sustained activity elsewhere: every iteration of this step finds the neighbour's socket readable,
+                # select() never times out; the timers of the watched connection are due all the same
+                for _ in range(8):
+                    self.busy_n += 1
+                    self.busy_sp.send(M.dwr("busy.verif.example", self.REALM, hbh=20000 + self.busy_n,
+                                            e2e=30000 + self.busy_n))
+                    h.tick()
+                    h.wait_workers_idle(1)
+                self.busy_sp.drain()
+                self.busy_sp.frames.clear()
+                run.cov["busy_neighbour_steps"] = run.cov.get("busy_neighbour_steps", 0) + 1
+            else:
+                h.settle()
             p.drain()
             frames = p.frames[seen:]
             seen = len(p.frames)
@@ -276,7 +301,7 @@ def run_shard(spec):
             i = 0
             for gi, (ni, nd, pi, pd) in enumerate(grids):
                 for direction in ("in", "out") if gi < 3 else ("in",):
-                    sc = Scenario(run, ni, nd, pi, pd, direction)
+                    sc = Scenario(run, ni, nd, pi, pd, direction, busy=(gi == 0 and direction == "in"))
                     try:
                         L = spec["length"] if gi < 2 else spec["length"] - 1
                         for evs in itertools.product(["none", "traffic", "dwa"], repeat=L):
@@ -293,7 +318,7 @@ def run_shard(spec):
                 ni, nd = rng.choice([1, 2, 5, 30, 60]), rng.choice([1, 2, 5, 30, 60])
                 pi = rng.choice([None, None, 1, 2, 5, 30, 60])
                 pd = rng.choice([None, None, 1, 2, 5, 30, 60])
-                sc = Scenario(run, ni, nd, pi, pd, rng.choice(["in", "out"]))
+                sc = Scenario(run, ni, nd, pi, pd, rng.choice(["in", "out"]), busy=rng.random() < 0.3)
                 try:
                     big = max(sc.idle, sc.dwa)
                     for _ in range(40):
@@ -318,7 +343,8 @@ def run_shard(spec):
 def replay(obj):
     run = Run()
     p = obj["params"]
-    sc = Scenario(run, p["node_idle"], p["node_dwa"], p["peer_idle"], p["peer_dwa"], p["direction"])
+    sc = Scenario(run, p["node_idle"], p["node_dwa"], p["peer_idle"], p["peer_dwa"], p["direction"],
+                  busy=p.get("busy", False))
     try:
         run.timeline(sc, [tuple(s) for s in obj["steps"]])
     finally:
